@@ -107,6 +107,10 @@ def run_sessions(outcome, tier, seed):
             if m == "reader":
                 call["sched"] = corpus.random_sched(rng)
             reqs.append({"id": len(reqs), "to": t, "calls": [call]})
+            # the same translation into a writer that starts failing at some output byte: an error value, never a panic
+            if len(data) <= 4000 and rng.random() < 0.5:
+                for k in {0, 1, rng.randrange(0, 12), rng.randrange(0, 64), rng.randrange(0, 400)}:
+                    reqs.append({"id": len(reqs), "to": t, "wfault": k, "calls": [dict(call)]})
     resps = common.harness_batch(reqs, timeout=2400, stall=60)
     hist = {}
     for req, resp in zip(reqs, resps):
